@@ -2447,19 +2447,25 @@ func (t *Table) NewCellIterator() *CellIterator {
 
 // HasNext 检查是否还有下一个单元格
 func (iter *CellIterator) HasNext() bool {
-	if iter.totalRows == 0 || iter.totalCols == 0 {
-		return false
+	// 每一行按其自身的单元格数量遍历：合并或不规则表格的各行单元格数量可能不同
+	for row, col := iter.currentRow, iter.currentCol; row < len(iter.table.Rows); row, col = row+1, 0 {
+		if col < len(iter.table.Rows[row].Cells) {
+			return true
+		}
 	}
-
-	// 检查当前位置是否超出范围
-	return iter.currentRow < iter.totalRows &&
-		(iter.currentRow < iter.totalRows-1 || iter.currentCol < iter.totalCols)
+	return false
 }
 
 // Next 获取下一个单元格信息
 func (iter *CellIterator) Next() (*CellInfo, error) {
 	if !iter.HasNext() {
 		return nil, fmt.Errorf("没有更多单元格")
+	}
+
+	// 跳过已遍历完（或为空）的行
+	for iter.currentCol >= len(iter.table.Rows[iter.currentRow].Cells) {
+		iter.currentCol = 0
+		iter.currentRow++
 	}
 
 	// 获取当前单元格
@@ -2481,7 +2487,7 @@ func (iter *CellIterator) Next() (*CellInfo, error) {
 
 	// 更新位置并检查是否为最后一个
 	iter.currentCol++
-	if iter.currentCol >= iter.totalCols {
+	if iter.currentCol >= len(iter.table.Rows[iter.currentRow].Cells) {
 		iter.currentCol = 0
 		iter.currentRow++
 	}
@@ -2505,17 +2511,24 @@ func (iter *CellIterator) Current() (int, int) {
 
 // Total 获取总单元格数量
 func (iter *CellIterator) Total() int {
-	return iter.totalRows * iter.totalCols
+	total := 0
+	for i := range iter.table.Rows {
+		total += len(iter.table.Rows[i].Cells)
+	}
+	return total
 }
 
 // Progress 获取迭代进度（0.0-1.0）
 func (iter *CellIterator) Progress() float64 {
-	if iter.totalRows == 0 || iter.totalCols == 0 {
+	total := iter.Total()
+	if total == 0 {
 		return 1.0
 	}
 
-	processed := iter.currentRow*iter.totalCols + iter.currentCol
-	total := iter.totalRows * iter.totalCols
+	processed := iter.currentCol
+	for i := 0; i < iter.currentRow && i < len(iter.table.Rows); i++ {
+		processed += len(iter.table.Rows[i].Cells)
+	}
 
 	return float64(processed) / float64(total)
 }
@@ -2544,7 +2557,7 @@ func (t *Table) ForEachInRow(rowIndex int, fn func(col int, cell *TableCell, tex
 		return fmt.Errorf("行索引无效: %d", rowIndex)
 	}
 
-	colCount := t.GetColumnCount()
+	colCount := len(t.Rows[rowIndex].Cells)
 	for col := 0; col < colCount; col++ {
 		cell, err := t.GetCell(rowIndex, col)
 		if err != nil {
